@@ -310,7 +310,32 @@ func checkC09(r *Result) {
 			n, prob := everyIterationPassesInstr(dv, func(in ssa.Instruction) bool { return in == sc.Instr })
 			r.check(n == 1 && prob == "", "LIN-SPLIT", "(x/reporter/keeper.Keeper).DivvyingTips # every origin of the snapshot is credited", pos(sc.Pos()), fmt.Sprintf("%d loops ; %s", n, prob))
 		}
-		// snapshot key
+		// snapshot key: the weights are read from the stake snapshot of exactly the rewarded report
+		nSnap := 0
+		for _, cs := range P.Sites(descIs("coll:x/reporter/keeper.Keeper.Report.Get")) {
+			if TopFunc(cs.Fn) == dv {
+				nSnap++
+			}
+		}
+		r.check(nSnap == 1, "LIN-SPLIT", "(x/reporter/keeper.Keeper).DivvyingTips # one read of the report's stake snapshot", pos(dv.Pos()), fmt.Sprintf("%d Report.Get sites (a look-up by reporter and height alone can return another report's snapshot)", nSnap))
+		for _, sc := range shareCalls {
+			t := tm.Of(Arg(sc.Instr, 2))
+			rooted := true
+			n := 0
+			var bad []string
+			t.Walk(func(x *Term) bool {
+				if strings.HasSuffix(x.Op, "TokenOriginInfo.Amount") || strings.HasSuffix(x.Op, "DelegationsAmounts.Total") || strings.HasSuffix(x.Op, "DelegationsAmounts.TokenOrigins") {
+					n++
+					isSnap := x.Find(func(y *Term) bool { return y.Op == "field:x/reporter/keeper.Keeper.Report" }) != nil && x.Find(func(y *Term) bool { return strings.HasSuffix(y.Op, "IndexedMap).Get") }) != nil
+					if !isSnap {
+						rooted = false
+						bad = append(bad, clip(x.String(), 300))
+					}
+				}
+				return true
+			})
+			r.check(rooted && n >= 2, "LIN-SPLIT", "(x/reporter/keeper.Keeper).DivvyingTips # amount and total are fields of the snapshot read with Report.Get", pos(sc.Pos()), fmt.Sprintf("%d snapshot fields in the credited amount, all rooted at the Report.Get result: %v %v", n, rooted, bad))
+		}
 		for _, cs := range P.Sites(descIs("coll:x/reporter/keeper.Keeper.Report.Get")) {
 			if TopFunc(cs.Fn) != dv {
 				continue
@@ -599,7 +624,7 @@ func checkC09(r *Result) {
 	r.minCount("TABLE", 5)
 	r.minCount("REMAINDER", 1)
 	r.minCount("FUNDING", 3)
-	r.minCount("LIN-SPLIT", 4)
+	r.minCount("LIN-SPLIT", 6)
 	r.minCount("COMMISSION-ONCE", 3)
 	r.minCount("RMW-CREDIT", 3)
 	r.minCount("SNAPSHOT-SUM", 4)
